@@ -1,6 +1,7 @@
 package main
 
 import (
+	"strings"
 	"verif/layera"
 	"verif/layerb"
 )
@@ -36,7 +37,7 @@ func runC03(opt *Options) int {
 	var convs []*layerb.Conv
 	convs = append(convs, layerb.FamilyField(opt.Thorough())...)
 	for _, c := range layerb.FamilyShape(false, opt.Seed) {
-		if c.ExpectFail {
+		if c.ExpectFail || strings.Contains(c.ID, "shape/alias_") {
 			convs = append(convs, c)
 		}
 	}
